@@ -304,7 +304,17 @@ fn specs(thorough: bool) -> Vec<Spec> {
     let filters = ["identity", "keep-1", "keep-0-2", "reverse", "empty", "foreign", "err"];
     let strats = ["pick-0", "pick-1", "pick-2", "none", "foreign", "err"];
     let lats: Vec<[u64; 3]> = if thorough {
-        vec![[0, 0, 0], [17_000, 0, 0], [0, 17_000, 0], [0, 0, 17_000], [17_000, 17_000, 17_000], [1, 1, 1], [12_000, 0, 0], [5_000, 5_000, 5_500]]
+        // every triple over {0, 1 ms, just before / on / just after the 16 s tick, 17 s, 33 s}
+        let l = [0u64, 1, 15_999, 16_000, 16_001, 17_000, 33_000];
+        let mut v = vec![[12_000, 0, 0], [5_000, 5_000, 5_500]];
+        for a in l {
+            for b in l {
+                for c in l {
+                    v.push([a, b, c]);
+                }
+            }
+        }
+        v
     } else {
         vec![[0, 0, 0], [17_000, 0, 17_000], [12_000, 0, 3_000]]
     };
